@@ -2,8 +2,8 @@
 from reg._common import COMMON_ASSUME
 
 ENTRY = {
-    'lean_files': ['Props/C11.lean', 'Props/C11Triangle.lean'],
-    'lemma_files': ['Lemmas/TriDeriv.lean', 'Model/TriDeriv.lean', 'Model/Triangle.lean', 'Lemmas/Deriv.lean', 'Lemmas/Shift.lean', 'Lemmas/Bridge.lean', 'Lemmas/VS.lean', 'Lemmas/Elevate.lean',
+    'lean_files': ['Props/C11.lean', 'Props/C11Triangle.lean', 'Props/C11Rounding.lean'],
+    'lemma_files': ['Lemmas/RoundingDeriv.lean', 'Lemmas/RoundingMore.lean', 'Lemmas/Rounding.lean', 'Lemmas/TriRounding.lean', 'Lemmas/TriDeriv.lean', 'Model/TriDeriv.lean', 'Model/Triangle.lean', 'Lemmas/Deriv.lean', 'Lemmas/Shift.lean', 'Lemmas/Bridge.lean', 'Lemmas/VS.lean', 'Lemmas/Elevate.lean',
                     'Lemmas/Subdivide.lean', 'Model/Basic.lean', 'Model/Curve.lean'],
     'script': 'props/c11.py',
     'rule': 'curves degree 1..30: hodograph by operator extraction on the identity net (regime E at dyadic s, T at binary64 s), '
@@ -13,7 +13,7 @@ ENTRY = {
             'dyadic points (exact) and binary64 nets; distinct by hash of exact inputs',
     'partial': [
                 'proved for every degree (Props/C11Triangle): the running indices of jacobian_s / jacobian_t, jacobian nets = formal partial derivatives (pderiv in MvPolynomial (Fin 2) K) of the surface polynomial, jacobian_det = x_s y_t - x_t y_s of those derivatives, the triangle Newton step solves the linearised 2x2 system uniquely when det != 0 (both code branches) and is a no-op on a zero residual; curves: hodograph = derivative for every degree, curvature formula, Newton steps (Props/C11)',
-                'not proved: binary64 rounding of the derivative nets (checked in regime T against the exact values with a tolerance from the C01/C05 rounding theorems); the singular-Jacobian ValueError is compared on exact data only',
+                'rounding theorems (Props/C11Rounding, standard model): hodograph exponent 3n+1 (3n+2 for lines), curvature numerator 3n+3 and <T,T> 3, Jacobian nets 2 per entry, jacobian_det 8d+6 (6 for d = 1) with scale X_s Y_t + Y_s X_t; the script comparators 2(3n+6), 4(3n+12), 4, 8(3d+6) exceed them where the scales coincide; NOT implied: the curvature tolerance uses exact second differences as scale (rigorous scale |D_{j+1}|+|D_j|), sqrt and the division by |T|^3 are not modelled, and the Cartesian scale uses |1-s|+|t| for lambda_1; the singular-Jacobian ValueError is compared on exact data only',
     ],
     'trusted_base': ['modelled not verified: evaluate_hodograph / get_curvature / newton_refine in curve_helpers.py and curve.f90; '
                      'spec-checked only: jacobian_both, jacobian_det (triangle_helpers.py, triangle.f90), newton_refine of '
